@@ -12,40 +12,37 @@ From GoPdf.Base Require Import Bytes Res.
 From GoPdf.C04 Require Import XRef XRefProofs XRefText XRefTextProofs Extent ExtentProofs.
 Import ListNotations.
 
-(* The statement without the no_hidden guard is kept visible; it is false of the faithful model. *)
-Definition resolve_refines_unguarded : Prop := resolve_refines_statement.
-
-(* Hidden objects (ISO 32000-1 7.5.8.4): a hybrid section whose table marks objects 2 and 3
-   free while the stream /XRefStm points to holds their real entries.  The reader installs the
-   table's free entries first and "first entry wins", so the hidden objects read as null. *)
-Theorem resolve_refines_refuted :
-  exists size c,
-    wf_chain size c = true /\ no_hidden c = false /\
-    exists m t, impl_read (layout_of c) size (start_of c) = Ok (m, t)
-      /\ xlookup m 3 = Some (Free 0)
-      /\ spec_resolve (history_of c) 3 = Some (InStm 2 0)
-      /\ get_entry m 3 0 = ANull
-      /\ spec_answer (history_of c) 3 0 = AIn 2 0.
-Proof. exists 1000%Z, hidden_chain. exact hidden_refutes. Qed.
-Print Assumptions resolve_refines_refuted.
-
-Theorem resolve_refines_unguarded_is_false : ~ resolve_refines_unguarded.
-Proof. exact resolve_refines_false. Qed.
-Print Assumptions resolve_refines_unguarded_is_false.
-
 (* For every chain of any length over any object numbers that is conforming (wf_chain: every
    number at most once per revision - in a hybrid section a second time only as the free
    marker of a hidden object -, offsets distinct and inside the file, field ranges of
-   ISO 32000-2 Table 18, the original section not mis-numbered) and in which no hybrid
-   section hides an object (no_hidden), the reader's table is the specification's and the
-   trailer is the newest revision's.  Since fix F22 there is no condition on update sections
-   of the shape `1 n / 0000000000 65535 f` any more. *)
+   ISO 32000-2 Table 18, the original section not mis-numbered) the reader's table is the
+   specification's and the trailer is the newest revision's.  No guard is left: update
+   sections `1 n / 0000000000 65535 f` are read correctly since fix F22, hidden objects of
+   hybrid-reference files since fix F39 (the stream /XRefStm points to is decoded before the
+   table of its section, so its entries win). *)
 Theorem resolve_refines :
-  forall size c, wf_chain size c = true -> no_hidden c = true ->
+  forall size c, wf_chain size c = true ->
     exists m, impl_read (layout_of c) size (start_of c) = Ok (m, spec_trailer (history_of c))
               /\ forall n, xlookup m n = spec_resolve (history_of c) n.
 Proof. exact impl_read_refines. Qed.
 Print Assumptions resolve_refines.
+
+(* Documentation: the reader BEFORE fix F39 (impl_read_pre_F39, a named variant of the model)
+   read the hidden objects of a hybrid section as free: the table marks objects 2 and 3 free,
+   the stream /XRefStm points to holds their real entries; the table's free entries were
+   installed first and "first entry wins".  The reader as it is now agrees with the
+   specification on the same file. *)
+Theorem resolve_refines_pre_F39_refuted :
+  exists size c,
+    wf_chain size c = true /\ no_hidden c = false /\
+    spec_resolve (history_of c) 3 = Some (InStm 2 0) /\
+    spec_answer (history_of c) 3 0 = AIn 2 0 /\
+    (exists m t, impl_read_pre_F39 (layout_of c) size (start_of c) = Ok (m, t)
+      /\ xlookup m 3 = Some (Free 0) /\ get_entry m 3 0 = ANull) /\
+    (exists m t, impl_read (layout_of c) size (start_of c) = Ok (m, t)
+      /\ xlookup m 3 = Some (InStm 2 0) /\ get_entry m 3 0 = AIn 2 0).
+Proof. exists 1000%Z, hidden_chain. exact hidden_refutes. Qed.
+Print Assumptions resolve_refines_pre_F39_refuted.
 
 (* Documentation: the reader BEFORE fix F22 (impl_read_pre_F22, a named variant of the model)
    loses the update `1 1 / 0000000000 65535 f` (finding F12); the reader as it is now reads
@@ -138,7 +135,7 @@ Definition ex_chain : chain :=
                        {| re_a := 50; re_b := 0; re_n := true |}]);
                 (4%N, [{| re_a := 100; re_b := 0; re_n := true |}])] [(k_Root, VRef 4 0); (k_Info, VRef 9 0)] ].
 
-Example resolve_refines_hypotheses_ex : wf_chain 1000 ex_chain = true /\ no_hidden ex_chain = true.
+Example resolve_refines_hypotheses_ex : wf_chain 1000 ex_chain = true /\ wf_chain 1000 hidden_chain = true.
 Proof. split; vm_compute; reflexivity. Qed.
 
 Example resolve_refines_ex :
